@@ -75,9 +75,16 @@ type c17E2ECase struct {
 	lc         *ctx
 	path       string
 	nontrivial bool
+	stuck      bool // sendAction-stuck, or abandoned by the watchdog
+	skipped    bool
 }
 
-func c17RunE2E(ec *c17E2ECase, work string) {
+// a transfer of this group takes about a second (the late connector 1.2 s more); runTransfer gives up
+// after c17E2EDeadline, the watchdog around the whole scenario after c17E2ELimit
+const c17E2EDeadline = 10 * time.Second
+const c17E2ELimit = 40 * time.Second
+
+func c17RunE2E(ec *c17E2ECase, work string, prog *c17Progress) {
 	rng := rand.New(rand.NewSource(ec.seed))
 	root := filepath.Join(work, fmt.Sprint(ec.seed))
 	os.MkdirAll(filepath.Join(root, "src"), 0755)
@@ -90,6 +97,8 @@ func c17RunE2E(ec *c17E2ECase, work string) {
 	lc := &ctx{rng: rng, tier: "quick", stats: map[string]int{}, seen: map[string]bool{}}
 	ec.lc = lc
 	sc := &c17Scenario{c: lc, rng: rng, adopted: -1}
+	prog.set(sc)
+	var hsDone atomic.Bool // the client's connection read the server hello
 	var stragglers []*c17Peer
 	var stragKinds []int
 	genuine := -1 // index of the genuine client's connection among sc.peers
@@ -115,7 +124,7 @@ func c17RunE2E(ec *c17E2ECase, work string) {
 	noHandshake := make(chan struct{})  // … or it is known that it never will
 	var noHsOnce sync.Once
 	giveUp := func() { noHsOnce.Do(func() { close(noHandshake) }) }
-	agreed := make(chan struct{}, 1)    // the server answered over the tunnel after the ACT
+	agreed := make(chan struct{}, 1) // the server answered over the tunnel after the ACT
 	postDone := make(chan struct{})
 
 	hook := func(dir int, idx int, b []byte) e2eAction {
@@ -135,12 +144,15 @@ func c17RunE2E(ec *c17E2ECase, work string) {
 		mu.Lock()
 		triggerSeen = true
 		mu.Unlock()
+		sc.mu.Lock()
 		sc.uid = string(m[1])
 		sc.port, _ = strconv.Atoi(string(m[2]))
+		sc.mu.Unlock()
+		prog.step("trigger seen, pre-phase")
 		// pre-phase, one event at a time
 		for i, k := range ec.pre {
 			p := sc.connect(k)
-			sc.desc = append(sc.desc, c17KindName[k])
+			sc.addDesc(c17KindName[k])
 			if ec.straggle[i] {
 				stragglers = append(stragglers, p)
 				stragKinds = append(stragKinds, k)
@@ -154,7 +166,7 @@ func c17RunE2E(ec *c17E2ECase, work string) {
 			}
 			if k == c17CloseNow && !p.refused {
 				p.end()
-				sc.evs = append(sc.evs, c17Ev{op: 'x', conn: p.idx})
+				sc.addEv(c17Ev{op: 'x', conn: p.idx})
 			}
 		}
 		return e2eAction{}
@@ -184,7 +196,7 @@ func c17RunE2E(ec *c17E2ECase, work string) {
 				}
 				for _, k := range ec.post {
 					p := sc.connect(k)
-					sc.desc = append(sc.desc, c17KindName[k])
+					sc.addDesc(c17KindName[k])
 					for _, w := range c17Script(rng, k, sc.uid, sc.port) {
 						sc.write(p, w)
 					}
@@ -214,8 +226,8 @@ func c17RunE2E(ec *c17E2ECase, work string) {
 		conn, err := net.DialTimeout("tcp", "127.0.0.1:"+strconv.Itoa(port), 2*time.Second)
 		sc.peers = append(sc.peers, p)
 		sc.kinds = append(sc.kinds, c17Right)
-		sc.desc = append(sc.desc, "GENUINE")
-		sc.evs = append(sc.evs, c17Ev{op: 'c'})
+		sc.addDesc("GENUINE")
+		sc.addEv(c17Ev{op: 'c'})
 		genuine = p.idx
 		if err != nil {
 			p.refused = true
@@ -227,15 +239,16 @@ func c17RunE2E(ec *c17E2ECase, work string) {
 			giveUp()
 			conn.Close()
 			p.selfEnd = true
-			sc.evs = append(sc.evs, c17Ev{op: 'x', conn: p.idx})
+			sc.addEv(c17Ev{op: 'x', conn: p.idx})
 			return conn
 		}
 		ch, sh := trzsz.VerifGetHelloConstant(sc.uid, port)
 		p.sent = []byte(ch) // what connectToTunnel is expected to write first (checked by group "tunnel")
-		sc.evs = append(sc.evs, c17Ev{op: 'w', conn: p.idx, data: []byte(ch)})
+		sc.addEv(c17Ev{op: 'w', conn: p.idx, data: []byte(ch)})
 		w := &c17Conn{Conn: conn}
 		w.onRead = func(k int32) {
 			if k == 1 {
+				hsDone.Store(true)
 				p.mu.Lock()
 				p.got = []byte(sh) // the filter keeps the bytes; group "tunnel" checks them exactly
 				p.mu.Unlock()
@@ -257,7 +270,7 @@ func c17RunE2E(ec *c17E2ECase, work string) {
 		return w
 	}
 
-	cfg := e2eCfg{upload: ec.upload, timeout: 10, deadline: 30 * time.Second, proto: -1, quiet: true, hook: hook, connector: connector, overwrite: false}
+	cfg := e2eCfg{upload: ec.upload, timeout: 10, deadline: c17E2EDeadline, startWait: 6 * time.Second, proto: -1, quiet: true, hook: hook, connector: connector, overwrite: false}
 	cfg.onStart = func(r *e2eRun) {
 		// once the server has answered over the tunnel, in-band bytes must be ignored
 		select {
@@ -267,11 +280,14 @@ func c17RunE2E(ec *c17E2ECase, work string) {
 		case <-time.After(5 * time.Second):
 		}
 	}
+	prog.step("runTransfer")
 	res := runTransfer(cfg, []string{srcFile}, filepath.Join(root, "dest"))
+	prog.step("transfer over, waiting for the post-phase")
 	select {
 	case <-postDone:
-	case <-time.After(8 * time.Second):
+	case <-time.After(5 * time.Second):
 	}
+	prog.step("oracles")
 	ec.desc = fmt.Sprintf("e2e upload=%v pre=%v straggle=%v outcome=%s post=%v :: %s", ec.upload, ec.pre, ec.straggle, c17OutName[ec.outcome], ec.post, sc.describe())
 
 	// what the far ends saw (classified before the child exited would be ideal; a closed socket after
@@ -292,7 +308,12 @@ func c17RunE2E(ec *c17E2ECase, work string) {
 	if !ok || !same {
 		what := "the transfer did not complete with the source's bytes at the destination"
 		key := "tunnel-e2e:transfer-failed:" + c17OutName[ec.outcome]
-		if ec.path == "I" {
+		if res.hung && res.started && !res.clientDone && ec.path == "T" && !hsDone.Load() {
+			// the client recognised the trigger and never sent an ACT, neither in-band nor (no hello was read) over a tunnel
+			what = "the client's sendAction never got past the wait for the tunnel: no ACT on either path before the deadline"
+			key = "tunnel-e2e:sendAction-stuck:" + c17OutName[ec.outcome]
+			ec.stuck = true
+		} else if ec.path == "I" {
 			what = "no tunnel was used and the in-band transfer did not complete with the source's bytes"
 			key = "tunnel-e2e:no-fallback:" + c17OutName[ec.outcome]
 		}
@@ -400,8 +421,35 @@ func genC17E2E(c *ctx) {
 		}
 		cases[i] = ec
 	}
-	parallelDo(n, 12, func(i int) { c17RunE2E(cases[i], work) })
+	parallelDo(n, 12, func(i int) {
+		class := "e2e:" + c17OutName[cases[i].outcome]
+		if c17StuckCount(class) >= c17StuckLimit {
+			cases[i].skipped = true
+			return
+		}
+		prog := &c17Progress{}
+		ec, finished := c17Guard(c17E2ELimit, func() *c17E2ECase {
+			ec := *cases[i] // the scenario works on its own copy: an abandoned one is never looked at again
+			c17RunE2E(&ec, work, prog)
+			return &ec
+		})
+		if !finished {
+			ec = cases[i]
+			ec.stuck = true
+			ec.path = "abandoned"
+			ec.viol = append(ec.viol, [3]string{"tunnel-e2e:scenario-stuck:" + c17OutName[ec.outcome], "an end-to-end scenario did not finish (watchdog)",
+				fmt.Sprintf("no end within %v; e2e seed=%d upload=%v pre=%v straggle=%v outcome=%s post=%v :: %s", c17E2ELimit, ec.seed, ec.upload, ec.pre, ec.straggle, c17OutName[ec.outcome], ec.post, prog)})
+		}
+		if ec.stuck {
+			c17StuckAdd(class)
+		}
+		cases[i] = ec
+	})
 	for _, ec := range cases {
+		if ec.skipped {
+			c.count("skipped-after-stuck:e2e:" + c17OutName[ec.outcome])
+			continue
+		}
 		if ec.lc != nil {
 			for k, v := range ec.lc.stats {
 				c.stats[k] += v
@@ -419,6 +467,9 @@ func genC17E2E(c *ctx) {
 			} else {
 				c.count("e2e:pre:" + c17KindName[k])
 			}
+		}
+		if ec.path == "abandoned" {
+			continue
 		}
 		if ec.line != nil {
 			c.emit(true, ec.line.fn, ec.line.result, ec.line.args...)
